@@ -208,3 +208,51 @@ Proof.
   destruct (ceil_bound (mx - mn) st HD Hst) as [Hn Hb]. split; [exact Hn|].
   eapply Qle_trans; [exact Hb|]. apply (H1 f Hf).
 Qed.
+
+(* rounded arithmetic with relative error <= u per operation: the same bound up to ((1+u)/(1-u))^2 *)
+Lemma bin_width_bound_pc_float (rnd : Q -> Q) (u : Q) :
+  0 <= u -> u < 1 -> (forall x, 0 <= x -> (1 - u) * x <= rnd x /\ rnd x <= (1 + u) * x) ->
+  forall mbpw fs mn mx n,
+  (0 < mbpw)%Z -> (forall f, In f fs -> f_min f < f_max f /\ 0 < f_window f) ->
+  d_min (pc_derive rnd mbpw fs) = Some (Fin mn) -> d_max (pc_derive rnd mbpw fs) = Some (Fin mx) ->
+  d_bins (pc_derive rnd mbpw fs) = Some n ->
+  forall f, In f fs ->
+  (0 < n)%Z /\
+  (1 - u) * (1 - u) * (mx - mn) <= inject_Z n * ((1 + u) * (1 + u) * (f_window f / inject_Z mbpw)).
+Proof.
+  intros Hu0 Hu1 Hrnd mbpw fs mn mx n Hm Hwf E1 E2 E3 f Hf.
+  destruct (range_covers_filters rnd mbpw fs mn mx E1 E2 f Hf) as [Hlo Hhi].
+  destruct (Hwf f Hf) as [Hlt Hw].
+  unfold pc_derive in E1, E2, E3. cbn in E1, E2, E3.
+  injection E1 as E1. injection E2 as E2. rewrite E1 in E3.
+  destruct (fold_left (fun st f => xmin st (rnd (f_window f / inject_Z mbpw))) fs PInf) as [st|] eqn:Es; [|discriminate].
+  injection E3 as <-. rewrite E2.
+  destruct (fold_xmin_le (fun f => rnd (f_window f / inject_Z mbpw)) fs PInf st Es) as (H1 & _ & H3).
+  pose proof (inject_Z_pos' mbpw Hm) as Hmq.
+  assert (0 < / inject_Z mbpw) as Hinv by (apply Qinv_lt_0_compat, Hmq).
+  assert (forall g, In g fs -> 0 < f_window g / inject_Z mbpw) as Hpos.
+  { intros g Hg. unfold Qdiv. apply Qmult_lt_0_compat; [apply (Hwf g Hg)|exact Hinv]. }
+  assert (0 < st) as Hst.
+  { destruct H3 as [(f' & Hf' & ->)|E]; [|discriminate]. apply (rnd_pos rnd u Hu1 Hrnd), Hpos, Hf'. }
+  set (p := f_window f / inject_Z mbpw).
+  assert (0 < p) as Hp by (apply Hpos, Hf).
+  assert (st <= (1 + u) * p) as Hsp.
+  { eapply Qle_trans; [apply (H1 f Hf)|]. apply (Hrnd p). lra. }
+  assert (p <= (1 + u) * p) as Hpp by nra.
+  assert (0 < mx - mn) as HD by lra.
+  unfold nbins.
+  set (D' := rnd (mx - mn)).
+  assert ((1 - u) * (mx - mn) <= D') as HD' by (apply (Hrnd (mx - mn)); lra).
+  assert (0 < D') as HD'pos by (apply (rnd_pos rnd u Hu1 Hrnd), HD).
+  set (r0 := D' / st).
+  assert (0 < r0) as Hr0 by (unfold r0, Qdiv; apply Qmult_lt_0_compat; [exact HD'pos|apply Qinv_lt_0_compat, Hst]).
+  assert (r0 * st == D') as Hr0s by (unfold r0; field; intros E; rewrite E in Hst; exact (Qlt_irrefl _ Hst)).
+  set (r := rnd r0).
+  assert ((1 - u) * r0 <= r) as Hr by (apply (Hrnd r0); lra).
+  assert (0 < r) as Hrpos by (apply (rnd_pos rnd u Hu1 Hrnd), Hr0).
+  pose proof (Qle_ceiling r) as Hc.
+  assert (0 < inject_Z (Qceiling r)) as Hnq by (eapply Qlt_le_trans; [exact Hrpos|exact Hc]).
+  split; [apply inject_Z_pos, Hnq|].
+  apply (chain u (mx - mn) D' r0 r st p (inject_Z (Qceiling r)) p); try assumption.
+  apply Qlt_le_weak, Hnq.
+Qed.
